@@ -200,6 +200,10 @@ func runC10(rc *RC) {
 	opts := E2Opts{S2S: ch.Chance("workload", 1, 5), Plain: ch.Chance("workload", 1, 4), Chunk: ch.Chance("workload", 1, 2)}
 	if !opts.S2S && ch.Chance("workload", 1, 4) {
 		opts.WS = true
+	} else if !opts.S2S && ch.Chance("workload", 1, 5) {
+		// a component's session: its stream header is written by the component negotiator, not by the session
+		opts.Comp = true
+		rc.Fire("component-session")
 	}
 	strat := rc.S.ConfigureStrategy()
 	e := rc.NewE2(opts)
